@@ -140,7 +140,7 @@ impl Property for C20 {
         "deterministic simulation with environment fault injection: each program is executed repeatedly in one process and in child processes under perturbations of CPU affinity (DashMap shard count), ASLR (hash seeds), environment size, working directory and stack limit; transcripts are compared byte for byte"
     }
     fn rule(&self) -> &'static str {
-        "case = a seeded program (declarations, rules, writes, runs, checks, extract, extract variants, print-size, print-function, containers, push/pop) or an .egg file from /repo/tests that needs no external facts; executed twice in this process and once in each perturbed child: affinity 16 CPUs vs the worker's single CPU, 2 CPUs, ASLR off (setarch -R), 200 extra environment variables, cwd=/, 256 KiB less stack. The transcript holds every command output verbatim (extracted terms, printed tables in order, sizes, error texts) and every run report with durations dropped (updated, can_stop, per-iteration changed flag and per-rule match counts, sorted by rule name). All transcripts must be identical. Non-trivial = the transcript has >= 3 output lines and some run updated the database; distinct = distinct programs."
+        "case = a seeded program (declarations, rules, writes, runs, checks, extract, extract variants, print-size, print-function, containers, push/pop) or an .egg file from /repo/tests that needs no external facts; a third of the seeded programs end with 2-15 rows over Vec/Set/MultiSet values that a union rebuilds in place, followed by print-function; executed six times in this process and once in each perturbed child: affinity 16 CPUs vs the worker's single CPU, 2 CPUs, ASLR off (setarch -R), 200 extra environment variables, cwd=/, 256 KiB less stack. The transcript holds every command output verbatim (extracted terms, printed tables in order, sizes, error texts) and every run report with durations dropped (updated, can_stop, per-iteration changed flag and per-rule match counts, sorted by rule name). All transcripts must be identical. Because the subject is reproducibility itself, a replay of a violation must reproduce the class; the differing line may vary. Non-trivial = the transcript has >= 3 output lines and some run updated the database; distinct = distinct programs."
     }
     fn assumptions(&self) -> Vec<String> {
         vec![
